@@ -25,7 +25,7 @@ func init() {
 		Rule: "graph.IsPlanar(g) on dense and sparse representations of: every isomorphism class on n <= 8 vertices (quick; n = 9 and 1/16 of n = 10 in thorough) under all (n <= 6; n <= 7 thorough) or seeded relabellings; " +
 			"graphs planar by construction with their rotation system (stacked and flip-randomised triangulations, random 2-connected plane graphs, outerplanar graphs, grids with diagonals, block trees, their random subgraphs, subdivisions, pendant / isolated vertices) up to n = 200; " +
 			"graphs non-planar by construction with their Kuratowski subgraph (subdivided K5 / K3,3 overlaid on, identified with or linked to large planar graphs, in labellings that put the subdivision first, last or anywhere); " +
-			"named families, random sparse graphs and near-triangulations (planar +/- a few edges) judged by the reference DMP with a checked certificate; plus certificate-free metamorphic runs (relabel, subdivide, pendant, isolated, edge deletion). " +
+			"named families, random sparse graphs, rim cycles with many-attachment hubs and near-triangulations (planar +/- a few edges) judged by the reference DMP with a checked certificate; plus certificate-free metamorphic runs (relabel, subdivide, pendant, isolated, edge deletion). " +
 			"A verdict is judged only against a certificate verified for that labelled graph (or for the class representative of which it is an explicit relabelling). " +
 			"non-trivial = n >= 6 and some block has >= 5 vertices (the DMP loop runs); distinct = hash of the labelled adjacency matrix",
 		Assumptions: []string{
@@ -41,7 +41,7 @@ func init() {
 		MinNontrivial:  map[string]int{"quick": 100000, "thorough": 2000000},
 		RequiredObs: []string{"calls:dense", "calls:sparse", "cert:rotation", "cert:K5", "cert:K3,3", "cert:edge-bound",
 			"classes_n=8", "family:stacked", "family:flipped", "family:plane", "family:outerplanar", "family:grid", "family:blocktree",
-			"family:overlay", "family:nearplanar", "family:random", "family:named", "verdict:planar", "verdict:nonplanar",
+			"family:overlay", "family:nearplanar", "family:random", "family:hubs", "family:named", "verdict:planar", "verdict:nonplanar",
 			"derived:subgraph", "derived:subdivide", "derived:pendant+isolated", "metamorphic:pairs"},
 	})
 }
@@ -860,17 +860,59 @@ func (m *mon) referenceJudged() {
 	}
 	// random sparse graphs and near-triangulations
 	gens := planarGens()
-	cases := c.Pick(2400, 24000)
+	cases := c.Pick(3000, 30000)
 	per = 12
 	for u := 0; u*per < cases; u++ {
 		u := u
 		c.Unit(fmt.Sprintf("reference/%d", u), func() {
 			for i := u * per; i < (u+1)*per && i < cases && !c.Stopped(); i++ {
 				r := c.Rand("reference", i)
-				n := sizeFor(c, r, i/2)
+				n := sizeFor(c, r, i/3)
 				var g *rg.G
 				label := ""
-				if i%2 == 0 {
+				if i%3 == 2 {
+					// a long rim cycle 0..L-1 (found first by a DFS from vertex 0 when no chord interferes), a few hubs
+					// joined to many rim vertices (fragments with many attachment vertices), hub-hub edges, a few chords
+					label = "rim cycle with hubs (fragments with many attachments)"
+					c.Obs("family:hubs", 1)
+					hubs := 1 + r.Intn(4)
+					L := n - hubs
+					if L < 4 {
+						L = 4
+					}
+					g = rg.New(L + hubs)
+					for v := 0; v < L; v++ {
+						g.Add(v, (v+1)%L)
+					}
+					for h := 0; h < hubs; h++ {
+						switch r.Intn(3) {
+						case 0: // every rim vertex
+							for v := 0; v < L; v++ {
+								g.Add(L+h, v)
+							}
+						case 1: // an arc of the rim
+							a, k := r.Intn(L), 2+r.Intn(L-1)
+							for t := 0; t < k; t++ {
+								g.Add(L+h, (a+t)%L)
+							}
+						default: // a random subset
+							pr := 0.1 + 0.8*r.Float()
+							for v := 0; v < L; v++ {
+								if r.Bool(pr) {
+									g.Add(L+h, v)
+								}
+							}
+							g.Add(L+h, r.Intn(L))
+							g.Add(L+h, r.Intn(L))
+						}
+					}
+					for t := r.Intn(3); t > 0 && hubs > 1; t-- {
+						g.Add(L+r.Intn(hubs), L+r.Intn(hubs))
+					}
+					for t := r.Intn(3); t > 0; t-- {
+						g.Add(r.Intn(L), r.Intn(L))
+					}
+				} else if i%3 == 0 {
 					// G(n, m) with m around the range where both answers occur
 					label = "random sparse graph"
 					c.Obs("family:random", 1)
